@@ -122,6 +122,39 @@ def body(ctx: H.BaseCtx):
             if q is p:
                 ctx.fail("alias", "%s returned the same object" % name)
             _same_repr(ctx, q, p, name)
+    elif kind == "plain":
+        # a file without the numpoly header loads as a plain array
+        old_hook = ENGINE.str_hook
+        if ctx.symbolic:
+            _install_s9()
+            ENGINE.str_hook = _str_hook
+        tmpdir = tempfile.mkdtemp(prefix="nv_c13_")
+        try:
+            arr = p  # built from an array spec: a numpy array
+            path = os.path.join(tmpdir, "plain.txt")
+            kw, lkw = {}, {}
+            if ctx.symbolic:
+                kw["fmt"] = "%s"
+                lkw = {"dtype": object, "converters": _converter(ENGINE.path_cache.setdefault("tokens", [])), "encoding": None}
+            try:
+                numpy.savetxt(path, arr, header=case.get("header", ""), **kw)
+                r = numpoly.loadtxt(path, **lkw)
+            except Exception as e:
+                ctx.unexpected_exception(e, "plain savetxt/loadtxt")
+                return
+            if isinstance(r, numpoly.ndpoly) or not isinstance(r, numpy.ndarray):
+                ctx.fail("type", "a file without the numpoly header loaded as %s" % type(r).__name__)
+            else:
+                want = numpy.asarray(arr)
+                if want.ndim == 2 and 1 in want.shape or want.ndim == 1 and want.shape[0] == 1:
+                    want = want.squeeze()  # numpy.loadtxt squeezes singleton axes
+                ctx.expect_model(r, M.from_numeric(numpy.asarray(want, dtype=object)), "plain text round trip", rtol=None if ctx.symbolic else 1e-12)
+        finally:
+            ENGINE.str_hook = old_hook
+            for f in os.listdir(tmpdir):
+                os.unlink(os.path.join(tmpdir, f))
+            os.rmdir(tmpdir)
+        return
     elif kind == "text":
         old_hook = ENGINE.str_hook
         if ctx.symbolic:
@@ -233,6 +266,8 @@ def gen_cases(tier: str, seed: int) -> List[Dict]:
             add("text", P(shape, nterms=nt, atoms=3), save_kwargs=rng.choice(settings), saver=rng.choice(["numpoly", "numpy"]), fileobj=rng.random() < 0.3)
     add("text", P((2,), names=("q0", "q1", "q2", "q10"), nterms=3), save_kwargs={}, saver="numpoly", fileobj=False)
     add("text", P((3,), nterms=2), save_kwargs={}, saver="numpoly", fileobj=True)
+    for shape in [(3,), (2, 2), (1, 3)]:
+        add("plain", S.make_numeric_spec("x", "array", shape, rng, 3), header=rng.choice(["", "some other header", "numpoly is mentioned but this is no numpoly header"]))
     return cases
 
 
